@@ -1,5 +1,5 @@
 # Builds simrun = every *.cpp under $(REPO)/src as it is in the working tree + the harness under sim/.
-#   make REPO=/repo VARIANT=asan|plain
+#   make REPO=/repo VARIANT=asan|plain|gcc|cov
 # Object files carry dependency files, so any edit under $(REPO) triggers exactly the needed recompiles.
 REPO    ?= /repo
 VARIANT ?= asan
@@ -11,6 +11,12 @@ BUILD    := build/$(VARIANT)-$(TAG)
 
 ifeq ($(VARIANT),asan)
 CXX      := clang++
+CXXFLAGS := -std=c++17 -O1 -g -fno-omit-frame-pointer -fsanitize=address,undefined -fno-sanitize-recover=all \
+            -fno-sanitize=nonnull-attribute,alignment -D_GLIBCXX_ASSERTIONS
+LDFLAGS  := -fsanitize=address,undefined
+else ifeq ($(VARIANT),gcc)
+# second compiler's sanitizers: g++'s UBSan expands abs/labs inline and reports abs(INT_MIN), which clang 14's does not
+CXX      := g++
 CXXFLAGS := -std=c++17 -O1 -g -fno-omit-frame-pointer -fsanitize=address,undefined -fno-sanitize-recover=all \
             -fno-sanitize=nonnull-attribute,alignment -D_GLIBCXX_ASSERTIONS
 LDFLAGS  := -fsanitize=address,undefined
